@@ -24,17 +24,32 @@ def run(ck):
     # outstanding ones repeats about n^2/2^32 of them)
     jobs.append({"id": len(jobs) + 1, "tree": TREE, "op": {"k": "capi_errors", "threads": 2, "per_thread": 20, "seed": rng.randrange(1 << 30),
                                                         "flood": (1 << 21) if thorough else (1 << 18)}})
-    stats = {"ids": 0, "history_ops": 0, "model_ok": 0, "flood_outstanding": 0}
+    # one run with very many store/take cycles (nothing outstanding): an id outside the range that turns up once in 10^5..10^6 stores
+    jobs.append({"id": len(jobs) + 1, "tree": TREE, "op": {"k": "capi_errors", "threads": 2, "per_thread": 20, "seed": rng.randrange(1 << 30),
+                                                        "churn": (1 << 25) if thorough else (1 << 22)}})
+    stats = {"ids": 0, "history_ops": 0, "model_ok": 0, "flood_outstanding": 0, "churn_stores": 0}
     samples = []
     cases = []
     for deny in ((), ("openat2",)):
         tag = ",".join(deny) or "none"
         _, results, errs = run_driver_parallel(jobs, deny=deny, tag="c16" + tag, shards=len(jobs))
+        for j in jobs:
+            if j["id"] not in results:
+                # no result at all: the driver process died in the middle of the job (a panic inside an extern "C" function aborts
+                # the process).  The job is the input: running it again reproduces it.
+                ck.violation("C16: the process died during a run of failing C API calls (no result came back)",
+                             {"deny": tag, "job": j["op"], "driver_errors": [str(e_)[-400:] for e_ in (errs or [])][:2]},
+                             "churn" in j["op"] or "flood" in j["op"])
         for jid, res in results.items():
             r = res.get("res", {})
             if "n_ids" not in r:
-                ck.violation("C16: the error stress run did not complete", {"deny": tag, "res": r}, False)
+                # the job is the input: a process that dies in the middle of these failing calls (a panic inside an extern "C"
+                # function aborts) is reproduced by running the job again
+                ck.violation("C16: the error stress run did not complete (the process died during these failing C API calls)",
+                             {"deny": tag, "job": jobs[jid - 1]["op"], "res": r, "out": res.get("out", "")[-600:] if isinstance(res.get("out"), str) else None},
+                             "churn" in jobs[jid - 1]["op"] or "flood" in jobs[jid - 1]["op"])
                 continue
+            stats["churn_stores"] += r.get("churn", {}).get("n", 0)
             stats["ids"] += r["n_ids"]
             stats["flood_outstanding"] = max(stats["flood_outstanding"], r.get("flood", {}).get("n", 0))
             for v in r["violations"][:3]:
@@ -81,7 +96,7 @@ def run(ck):
     cov = {
         "evaluations": stats["ids"] + stats["history_ops"],
         "distinct_nontrivial": stats["ids"],
-        "max_errors_outstanding_at_once": stats["flood_outstanding"],
+        "max_errors_outstanding_at_once": stats["flood_outstanding"], "store_take_cycles_with_nothing_outstanding": stats["churn_stores"],
         "rule": "1..64 threads each fail through four C entry points (ENOENT, EINVAL, ENOSYS, ENOENT-in-open) with a unique token per "
                 "failure; all ids are held live, then consumed by OTHER threads concurrently (token, errno, second call NULL); "
                 "plus an interleaved store/take phase whose serialised history is replayed on the Coq table model; "
